@@ -27,6 +27,8 @@ type RunConfig struct {
 	Known       []KnownClass
 	MapOrderMax int
 	MapOrderSticky bool
+	SchedChoice bool
+	MaxSchedPoints int
 	Deadline    time.Time
 	AccessLog   bool
 	Trace       bool
@@ -126,6 +128,11 @@ func (ex *Exec) init(pr *Program, p *Path, cfg *RunConfig) {
 	ex.MaxMake = cfg.MaxMake
 	ex.MapOrderMax = cfg.MapOrderMax
 	ex.MapOrderSticky = cfg.MapOrderSticky
+	ex.SchedChoice = cfg.SchedChoice
+	ex.MaxSchedPoints = cfg.MaxSchedPoints
+	if ex.MaxSchedPoints == 0 {
+		ex.MaxSchedPoints = 1 << 30
+	}
 	ex.mutexes = map[*Value]*mutexSt{}
 	ex.builders = map[*Value]*[]*smt.Term{}
 	ex.wgs = map[*Value]*int{}
